@@ -103,6 +103,11 @@ type gl struct {
 	// heap `lheap` (declared at the top of the function), a pointer is an index into it
 	lheapT      string
 	yieldName   string // name of the consumer callback ("yield" in iter.Seq closures, the func parameter otherwise)
+	anyLean     string            // Lean sum type standing for `any` values (sam: Sam.TagVal), "" = not translated
+	anyCtor     map[string]string // static Go type of a value stored into an `any` -> constructor
+	extVocab    map[string]string // "pkg.Func" of another module with a GoRt counterpart (its semantics is assumed)
+	outParams   bool              // parameters of type []*int are lists of pointee values, copied in and handed back
+	runeAsByte  map[types.Object]bool // rune loop variables read as bytes (see rangeStmt)
 	selfExts    []string // ext parameters a self-recursive function is declared to take (fixed up front)
 	selfRec     bool   // the function being translated calls itself: its body is wrapped in a match on `fuel`
 	floatLean   string // Lean type standing for float64 (newick: distances are the model's opaque `Dist`), zero = none
@@ -199,6 +204,109 @@ func (g *gl) accumStmt(w *wr, c *ast.CallExpr) bool {
 		g.die(c, "accumulator method "+sel.Sel.Name)
 	}
 	return true
+}
+
+// isOutList: []*int with outParams on (copy-in / copy-out of the pointees; sound because the call sites pass the
+// addresses of distinct variables that nothing else touches during the call)
+func (g *gl) isOutList(t types.Type) bool {
+	if !g.outParams {
+		return false
+	}
+	sl, ok := t.Underlying().(*types.Slice)
+	if !ok {
+		return false
+	}
+	p, ok := sl.Elem().(*types.Pointer)
+	return ok && isInt(p.Elem()) && !isFloat(p.Elem())
+}
+
+// toAny: the value text injected into the `any` sum type according to the static type of e
+func (g *gl) toAny(e ast.Expr, text string) string {
+	t := g.typeOf(e)
+	key := ""
+	switch {
+	case isByte(t):
+		key = "byte"
+	case isFloat(t):
+		key = "float64"
+	case isInt(t):
+		key = "int"
+	default:
+		if b, ok := t.Underlying().(*types.Basic); ok && b.Kind() == types.String {
+			key = "string"
+		} else if sl, ok := t.Underlying().(*types.Slice); ok && isByte(sl.Elem()) {
+			key = "[]byte"
+		}
+	}
+	c, ok := g.anyCtor[key]
+	if !ok {
+		g.die(e, "value of type "+t.String()+" stored into an `any`")
+	}
+	return "(" + c + " " + text + ")"
+}
+
+// addrTarget: the variable behind &x, &s.f (s a record under construction) or (*T)(&s.f); "" if it is none of these
+func (g *gl) addrTarget(e ast.Expr) string {
+	for {
+		switch x := e.(type) {
+		case *ast.ParenExpr:
+			e = x.X
+			continue
+		case *ast.CallExpr: // a pointer conversion (*int)(&s.Flag)
+			if tv, ok := g.info.Types[x.Fun]; ok && tv.IsType() && len(x.Args) == 1 {
+				if p, ok := tv.Type.(*types.Pointer); ok && isInt(p.Elem()) {
+					e = x.Args[0]
+					continue
+				}
+			}
+			return ""
+		case *ast.UnaryExpr:
+			if x.Op != token.AND {
+				return ""
+			}
+			switch y := x.X.(type) {
+			case *ast.Ident:
+				if !isInt(g.typeOf(y)) {
+					return ""
+				}
+				g.mut[g.objOf(y)] = true
+				return g.lvName(y)
+			case *ast.SelectorExpr:
+				if id, ok := y.X.(*ast.Ident); ok && g.structLoc[g.objOf(id)] != nil && isInt(g.typeOf(y)) {
+					return id.Name + "_" + y.Sel.Name
+				}
+			}
+			return ""
+		}
+		return ""
+	}
+}
+
+// asciiCompareOnly: every use of o in body is an operand of == / != whose other operand is a constant below 0x80
+func (g *gl) asciiCompareOnly(body ast.Node, o types.Object) bool {
+	ok := true
+	okUses := map[*ast.Ident]bool{}
+	ast.Inspect(body, func(n ast.Node) bool {
+		if b, isB := n.(*ast.BinaryExpr); isB && (b.Op == token.EQL || b.Op == token.NEQ) {
+			for _, pair := range [][2]ast.Expr{{b.X, b.Y}, {b.Y, b.X}} {
+				if id, isId := pair[0].(*ast.Ident); isId && g.info.Uses[id] == o {
+					if tv, has := g.info.Types[pair[1]]; has && tv.Value != nil && tv.Value.Kind() == constant.Int {
+						if c, exact := constant.Int64Val(tv.Value); exact && c >= 0 && c < 0x80 {
+							okUses[id] = true
+						}
+					}
+				}
+			}
+		}
+		return true
+	})
+	ast.Inspect(body, func(n ast.Node) bool {
+		if id, isId := n.(*ast.Ident); isId && g.info.Uses[id] == o && !okUses[id] {
+			ok = false
+		}
+		return true
+	})
+	return ok
 }
 
 // isRecPtr: t is *T for a record type T
@@ -488,6 +596,7 @@ func (g *gl) opaqueName(t types.Type) string {
 }
 
 type glFunc struct {
+	outLists  int      // number of trailing out-parameter lists ([]*int), handed back after the results
 	accParams []string // names of accumulator parameters (*bytes.Buffer …): handed back as (additional) results
 	recvState []string // receiver fields it takes as parameters and hands back after its results (records mode)
 	exts    []string // stdlib functions it (transitively) takes as parameters, sorted
@@ -531,6 +640,12 @@ func (g *gl) leanType(t types.Type) string {
 	}
 	if isAccum(t) {
 		return "List UInt8"
+	}
+	if it, ok := t.Underlying().(*types.Interface); ok && it.NumMethods() == 0 && g.anyLean != "" {
+		return g.anyLean
+	}
+	if g.isOutList(t) {
+		return "List Int"
 	}
 	if b, ok := t.Underlying().(*types.Basic); ok && g.extObjs != nil {
 		switch b.Kind() {
@@ -1158,6 +1273,17 @@ func isNilIdent(e ast.Expr) bool {
 
 func (g *gl) binary(v *ast.BinaryExpr) ex {
 	lt := g.typeOf(v.X)
+	if v.Op == token.EQL || v.Op == token.NEQ {
+		// a rune loop variable read as a byte (see rangeStmt), compared with an ASCII constant
+		for _, pair := range [][2]ast.Expr{{v.X, v.Y}, {v.Y, v.X}} {
+			if id, ok := pair[0].(*ast.Ident); ok && g.runeAsByte[g.objOf(id)] {
+				if tv, has := g.info.Types[pair[1]]; has && tv.Value != nil {
+					c, _ := constant.Int64Val(tv.Value)
+					return ex{text: fmt.Sprintf("%s %s %d", g.nameOf(g.objOf(id)), map[token.Token]string{token.EQL: "==", token.NEQ: "!="}[v.Op], c)}
+				}
+			}
+		}
+	}
 	if g.floatLean != "" && isFloat(lt) && (v.Op == token.EQL || v.Op == token.NEQ) {
 		// an opaque float compared with the constant 0: "no value"
 		if tv, ok := g.info.Types[v.Y]; ok && tv.Value != nil && constant.Sign(tv.Value) == 0 {
@@ -1300,6 +1426,19 @@ func (e ex) opnd2() string {
 }
 
 func (g *gl) call(c *ast.CallExpr) ex {
+	if sel, ok := c.Fun.(*ast.SelectorExpr); ok && g.extVocab != nil {
+		if pk, ok := sel.X.(*ast.Ident); ok {
+			if pn, ok := g.info.Uses[pk].(*types.PkgName); ok {
+				if voc, ok := g.extVocab[pn.Imported().Name()+"."+sel.Sel.Name]; ok {
+					parts := []string{voc}
+					for _, a := range c.Args {
+						parts = append(parts, g.expr(a).arg())
+					}
+					return ex{text: strings.Join(parts, " "), act: true}
+				}
+			}
+		}
+	}
 	if sel, ok := c.Fun.(*ast.SelectorExpr); ok && len(c.Args) == 0 && sel.Sel.Name == "Sum64" && g.hashLocals != nil {
 		if id, ok := sel.X.(*ast.Ident); ok {
 			if seed, ok := g.hashLocals[g.objOf(id)]; ok {
@@ -1935,6 +2074,17 @@ func (g *gl) assignTo(w *wr, lhs ast.Expr, tok token.Token, rhs ast.Expr) {
 		}
 		g.die(lhs, "assignment target")
 	}
+	if se, ok := lhs.(*ast.StarExpr); ok && tok == token.ASSIGN {
+		// *p[i] = v for an out-parameter list p
+		if ie, ok := se.X.(*ast.IndexExpr); ok {
+			if id, ok := ie.X.(*ast.Ident); ok && g.isOutList(g.typeOf(ie.X)) {
+				n := g.lvName(id)
+				w.line(n + " ← setIdx " + n + " " + g.indexInt(ie.Index) + " " + g.rhsOf(rhs).arg())
+				return
+			}
+		}
+		g.die(lhs, "assignment through a pointer")
+	}
 	switch l := lhs.(type) {
 	case *ast.Ident:
 		if l.Name == "_" {
@@ -1975,7 +2125,11 @@ func (g *gl) assignTo(w *wr, lhs ast.Expr, tok token.Token, rhs ast.Expr) {
 		if m, ok := g.typeOf(l.X).Underlying().(*types.Map); ok && !isEmptyStruct(m.Elem()) && tok == token.ASSIGN {
 			if id, ok := l.X.(*ast.Ident); ok {
 				n := g.lvName(id)
-				w.line(n + " := mapSet " + n + " " + g.expr(l.Index).arg() + " " + g.rhsOf(rhs).arg())
+				val := g.rhsOf(rhs).arg()
+				if it, isI := m.Elem().Underlying().(*types.Interface); isI && it.NumMethods() == 0 && g.anyLean != "" {
+					val = g.toAny(rhs, val)
+				}
+				w.line(n + " := mapSet " + n + " " + g.expr(l.Index).arg() + " " + val)
 				return
 			}
 		}
@@ -2262,6 +2416,63 @@ func (g *gl) stmt(w *wr, s ast.Stmt) {
 				}
 			}
 			return
+		}
+		if (v.Tok == token.DEFINE || v.Tok == token.ASSIGN) && len(v.Lhs) == 1 && len(v.Rhs) == 1 && g.outParams && g.rdKind == "" {
+			if c, ok := v.Rhs[0].(*ast.CallExpr); ok {
+				if f, ok := c.Fun.(*ast.Ident); ok {
+					if fn, ok := g.info.Uses[f].(*types.Func); ok && fn.Pkg() == g.pkg {
+						if callee := g.funcs[fn.Name()]; callee != nil && callee.found && callee.outLists == 1 {
+							// err := f(x, &a, &b, …): the variadic tail is the list of pointee values, copied back after the call
+							sig := fn.Type().(*types.Signature)
+							nfix := sig.Params().Len() - 1
+							parts := []string{fn.Name()}
+							for _, k := range callee.exts {
+								g.extUsed[k] = true
+								parts = append(parts, g.extFuncs[k].param)
+							}
+							if callee.fuel {
+								g.usesFuel = true
+								parts = append(parts, "fuel")
+							}
+							for _, a := range c.Args[:nfix] {
+								parts = append(parts, g.expr(a).arg())
+							}
+							var targets []string
+							for _, a := range c.Args[nfix:] {
+								t := g.addrTarget(a)
+								if t == "" {
+									g.die(a, "out-parameter that is not the address of a variable")
+								}
+								targets = append(targets, t)
+							}
+							seen := map[string]bool{}
+							for _, t := range targets {
+								if seen[t] {
+									g.die(v, "the same variable passed twice as an out-parameter")
+								}
+								seen[t] = true
+							}
+							parts = append(parts, "["+strings.Join(targets, ", ")+"]")
+							t := g.tmp()
+							w.line("let " + t + " ← " + strings.Join(parts, " "))
+							for k, tg := range targets {
+								w.line(tg + " ← idx " + t + ".2 " + fmt.Sprint(k))
+							}
+							id := v.Lhs[0].(*ast.Ident)
+							if v.Tok == token.DEFINE && g.info.Defs[id] != nil {
+								kw := "let "
+								if g.mut[g.objOf(id)] {
+									kw = "let mut "
+								}
+								w.line(kw + g.nameOf(g.objOf(id)) + " := " + t + ".1")
+							} else {
+								w.line(g.lvName(id) + " := " + t + ".1")
+							}
+							return
+						}
+					}
+				}
+			}
 		}
 		if v.Tok == token.DEFINE {
 			if len(v.Lhs) != 1 || len(v.Rhs) != 1 {
@@ -2789,6 +3000,15 @@ func (g *gl) stmt(w *wr, s ast.Stmt) {
 			}
 			w.line("return (" + strings.Join(append(parts, g.retSuffix...), ", ") + ")")
 			return
+		} else if len(v.Results) == 1 && g.rdKind == "" && len(g.results) == 1 && len(g.retSuffix) > 0 {
+			e := g.expr(v.Results[0])
+			if isNilIdent(v.Results[0]) {
+				if n := g.nilOf(g.results[0].Type()); n != "" {
+					e = atomE(n)
+				}
+			}
+			w.line("return (" + strings.Join(append([]string{e.opnd()}, g.retSuffix...), ", ") + ")")
+			return
 		} else if len(v.Results) == 1 {
 			w.line("return " + g.expr(v.Results[0]).opnd())
 			return
@@ -2996,7 +3216,10 @@ func (g *gl) switchStmt(w *wr, v *ast.SwitchStmt) {
 	}
 	tag := g.expr(v.Tag)
 	if tag.act {
-		g.die(v, "switch tag with effects")
+		// the tag is evaluated once, before any case
+		t := g.tmp()
+		w.line(bindText("let ", t, tag))
+		tag = atomE(t)
 	}
 	var def []ast.Stmt
 	hasDef := false
@@ -3292,7 +3515,26 @@ func (g *gl) rangeStmt(w *wr, v *ast.RangeStmt) {
 	}
 	_, isMap := xt.Underlying().(*types.Map)
 	if bt, ok := xt.Underlying().(*types.Basic); ok && bt.Kind() == types.String {
-		g.die(v, "range over a string (runes)")
+		// for i, c := range s visits RUNES.  When c is only ever compared (==, !=) with ASCII constants, a byte loop
+		// is equivalent: i is the byte offset of each rune, an ASCII constant equals c only at that very byte,
+		// and no byte of a multi-byte (or invalid) sequence is below 0x80
+		vid, okV := v.Value.(*ast.Ident)
+		if !okV || v.Value == nil || !g.asciiCompareOnly(v.Body, g.objOf(vid)) {
+			g.die(v, "range over a string (runes)")
+		}
+		g.runeAsByte[g.objOf(vid)] = true
+		val := g.nameOf(g.objOf(vid))
+		if k.Name == "_" {
+			w.line("for " + val + " in " + x.opnd() + " do")
+		} else {
+			w.line("for (" + k.Name + ", " + val + ") in enum " + x.arg() + " do")
+		}
+		w.ind++
+		g.loops = append(g.loops, "for")
+		g.block(w, v.Body.List)
+		g.loops = g.loops[:len(g.loops)-1]
+		w.ind--
+		return
 	}
 	{
 		// Go reads slice elements live and skips map entries deleted during the loop; the translation
@@ -3549,6 +3791,7 @@ func (g *gl) findMutated(body ast.Node) {
 	g.mut = map[types.Object]bool{}
 	g.declared = map[string]bool{}
 	g.names = map[types.Object]string{}
+	g.runeAsByte = map[types.Object]bool{}
 	g.takenMut = map[string]bool{}
 	g.nTmp, g.nWhile, g.loops = 0, 0, nil
 	g.checkAliasing(body)
@@ -3783,6 +4026,13 @@ func (g *gl) funcOrMethod(recvType, goName, name, rel, placeholder string) {
 					continue
 				}
 				params = append(params, "("+g.nameOf(g.info.Defs[pn])+" : "+g.leanType(g.info.Defs[pn].Type())+")")
+				if g.isOutList(g.info.Defs[pn].Type()) {
+					// pointers to the caller's ints: the pointee values, copied in and handed back with every result
+					g.mut[g.info.Defs[pn]] = true
+					g.retSuffix = append(g.retSuffix, g.nameOf(g.info.Defs[pn]))
+					recvTypes = append(recvTypes, "(List Int)")
+					g.funcs[name].outLists++
+				}
 				if isAccum(g.info.Defs[pn].Type()) {
 					// an accumulator passed by pointer: written through, so handed back
 					g.mut[g.info.Defs[pn]] = true
@@ -3914,6 +4164,9 @@ func (g *gl) funcOrMethod(recvType, goName, name, rel, placeholder string) {
 			doc = "; `yield` is the consumer -- ANY deterministic consumer, stateful ones included: it is given the list of all items handed to it so far, the current one last -- and the result is the log of yielded items"
 		} else if len(g.results) == 1 {
 			resT = g.leanType(rt)
+			if len(recvTypes) > 0 {
+				resT = "(" + strings.Join(append([]string{paren(resT)}, recvTypes...), " × ") + ")"
+			}
 		}
 		for _, s := range shadow {
 			g.takenMut[s] = true
@@ -4717,6 +4970,7 @@ func goLean(repo, out string) {
 	fmt.Fprintln(w, "-- GENERATED by harness/cmd/translate -go from the Go source text of /repo on every run. Do not edit.")
 	fmt.Fprintln(w, "import Bio.Model.GoRt")
 	fmt.Fprintln(w, "import Bio.Model.GoRtNewick")
+	fmt.Fprintln(w, "import Bio.Model.Sam")
 	fmt.Fprintln(w, "namespace Bio.Generated.GoSrc")
 	fmt.Fprintln(w, "open Bio Bio.GoRt")
 	fmt.Fprintln(w)
@@ -4885,6 +5139,31 @@ func goLean(repo, out string) {
 	g10.extObjFunction("Add", "mash", "def Add {σ : Type} (g_Seed : UInt32) (g_complementBytes : "+B+") (bytes_ToUpper : "+B+" → "+B+") (hash64 : UInt32 → "+B+" → UInt64) (mh_Push : σ → UInt64 → σ) (mh_Sort : σ → σ) (mh : σ) (k : Int) (seqs : "+BB+") : Option σ := none",
 		[]string{"mh_Push", "mh_Sort"}, []string{"hash64"}, []string{"bytes.ToUpper"}, map[string]string{"g_complementBytes": B})
 	w.WriteString(strings.Replace(g10.funcs["Add"].text, "def Add", "def mash_Add", -1) + "\n")
+	// formats/sam: the line parser.  `any` tag values are the model's sum type Sam.TagVal (injected by the static type
+	// of the stored value), float64 is the canonical text (ParseFloat a parameter), parseInts' `...*int` are copied
+	// in and handed back, snm.At is GoRt's atIdx, *SAM is an Option tuple
+	g5b := loadPkg(filepath.Join(repo, "formats", "sam"))
+	g5b.recT = map[string]bool{"SAM": true}
+	g5b.outParams = true
+	g5b.anyLean = "Sam.TagVal"
+	g5b.anyCtor = map[string]string{"byte": "Sam.TagVal.A", "int": "Sam.TagVal.I", "float64": "Sam.TagVal.F", "string": "Sam.TagVal.Z", "[]byte": "Sam.TagVal.H"}
+	g5b.floatLean = "List UInt8"
+	g5b.extFuncs = map[string]extFunc{"strconv.Atoi": {"strconv_Atoi", "List UInt8 → Int × GoErr"},
+		"strconv.ParseFloat": {"strconv_ParseFloat", "List UInt8 → Int → List UInt8 × GoErr"},
+		"encoding/hex.DecodeString": {"hex_DecodeString", "List UInt8 → List UInt8 × GoErr"}}
+	g5b.extVocab = map[string]string{"snm.At": "atIdx"}
+	const TAGS = "List (List UInt8 × Sam.TagVal)"
+	g5b.function("splitTag", "formats/sam", "def splitTag (tag : "+B+") : Option (("+BB+") × GoErr) := none")
+	const SATOI, SPF, SHEX = "List UInt8 → Int × GoErr", "List UInt8 → Int → List UInt8 × GoErr", "List UInt8 → List UInt8 × GoErr"
+	g5b.function("parseTags", "formats/sam", "def parseTags (hex_DecodeString : "+SHEX+") (strconv_Atoi : "+SATOI+") (strconv_ParseFloat : "+SPF+") (values : "+BB+") : Option (("+TAGS+") × GoErr) := none")
+	g5b.function("parseInts", "formats/sam", "def parseInts (strconv_Atoi : "+SATOI+") (strs : "+BB+") (p : List Int) : Option (GoErr × (List Int)) := none")
+	const SAMT = "((List UInt8) × Int × (List UInt8) × Int × Int × (List UInt8) × (List UInt8) × Int × Int × (List UInt8) × (List UInt8) × ("+TAGS+"))"
+	g5b.funcOrMethod("", "parseLine", "sam_parseLine", "formats/sam", "def sam_parseLine (hex_DecodeString : "+SHEX+") (strconv_Atoi : "+SATOI+") (strconv_ParseFloat : "+SPF+") (line : "+BB+") : Option ((Option "+SAMT+") × GoErr) := none")
+	for _, n := range g5b.order {
+		w.WriteString(g5b.funcs[n].text)
+		w.WriteString("\n")
+	}
+	_ = TAGS
 	g8 := loadPkg(filepath.Join(repo, "formats", "bed"))
 	// the read side: parseLine and (*reader).read.  *BED is an Option tuple, *bufio.Reader the abstract BufRd,
 	// strconv.Atoi / strconv.ParseUint are parameters
